@@ -20,10 +20,33 @@ impl log::Log for MemLogger {
 }
 
 pub fn install_if_requested() {
+    // the logger is always there; it records only while the level is raised (VERIF_LOG=1: always; otherwise
+    // only around cases that ask for it with `scoped_trace`)
+    let _ = log::set_logger(&MemLogger);
     if std::env::var("VERIF_LOG").is_ok() {
-        let _ = log::set_logger(&MemLogger);
         log::set_max_level(log::LevelFilter::Trace);
     }
+}
+
+/// Records the crate's log output while the returned guard lives (a few lines per reload: cheap).
+pub struct TraceScope(log::LevelFilter);
+pub fn scoped_trace() -> TraceScope {
+    let prev = log::max_level();
+    clear();
+    log::set_max_level(log::LevelFilter::Trace);
+    TraceScope(prev)
+}
+impl Drop for TraceScope {
+    fn drop(&mut self) {
+        log::set_max_level(self.0);
+    }
+}
+
+/// The last `n` recorded lines, for a violation message.
+pub fn tail(n: usize) -> String {
+    let b = BUF.lock().unwrap_or_else(|e| e.into_inner());
+    let k = b.len().saturating_sub(n);
+    b[k..].join(" | ")
 }
 
 pub fn clear() {
